@@ -43,7 +43,7 @@ def cases(ctx):
         yield {"kind": "collide", "cfg": cfg, "aseed": rng.getrandbits(32)}
     for i in range(ctx.per_shard(ctx.pick(2, 60))):
         yield {"kind": "private_cli", "lseed": rng.getrandbits(32), "salt": "p%d" % rng.getrandbits(30),
-               "extra": rng.choice([None, "11.11.0.0/16"]), "B": rng.choice([0, 8, 8])}
+               "extra": rng.choice([None, "11.11.0.0/16", "100.0.0.0/8", "10.1.0.0/16"]), "B": rng.choice([0, 8, 8])}
 
 
 def check_case(ctx, case):
@@ -66,6 +66,12 @@ def _tok(rng, v, cls):
 
 def gen_lines(rng, fcfg, n):
     pres = [ipaddress.ip_network(a) for a in (fcfg.get("pa") or [])]
+    traps = None
+    if pres:
+        try:
+            traps = ipgen.build({"fam": 4, "salt": fcfg["salt"], "B": fcfg.get("B4"), "pp": fcfg.get("pp"), "pa": None})
+        except Exception:
+            traps = None
     out = []
     for _ in range(n):
         toks = []
@@ -83,6 +89,11 @@ def gen_lines(rng, fcfg, n):
                      "above": (hi + 1) & 0xFFFFFFFF,
                      "sib": (lo ^ (1 << (32 - nw.prefixlen))) if nw.prefixlen else lo}[which]
                 toks.append(_tok(rng, v, "edge:" + which))
+            elif r < 0.80 and pres and traps is not None:
+                # the address that WOULD collide into a preserved network if its pins were forgotten
+                nw = rng.choice(pres)
+                y = rng.randint(int(nw.network_address), int(nw.broadcast_address))
+                toks.append(_tok(rng, traps.deanonymize(y), "trap"))
             elif r < 0.85:
                 toks.append(_tok(rng, rng.getrandbits(32), "other"))
             else:
